@@ -416,10 +416,10 @@ func (p *parser) parsePostfix(x Expr) Expr {
 // ---- items
 
 var itemKW = map[string]bool{"spec": true, "pred": true, "func": true, "extern": true, "trusted": true, "lemma": true,
-	"invariant": true, "monitor": true, "directive": true, "axiom": true}
+	"invariant": true, "monitor": true, "directive": true, "axiom": true, "owned": true}
 var clauseKW = map[string]bool{"requires": true, "ensures": true, "assigns": true, "decreases": true, "loop": true,
 	"behavior": true, "assumes": true, "ghost": true, "pure": true, "mayalloc": true, "prop": true, "cases": true,
-	"inv": true, "storerule": true, "lockrequires": true}
+	"inv": true, "storerule": true, "lockrequires": true, "consumes": true, "releases": true, "callghost": true}
 
 type logical struct {
 	text string
@@ -513,10 +513,24 @@ func ParseFile(name, src string) (f *File, err error) {
 			if kw == "spec" {
 				sf.Result = p.parseType()
 			}
-			p.expect("=")
-			sf.Body = p.parseExpr()
-			p.eof()
+			if p.peek().kind == "eof" {
+				// no body: an uninterpreted function, constrained by axioms only
+				sf.Uninterpreted = true
+			} else {
+				p.expect("=")
+				sf.Body = p.parseExpr()
+				p.eof()
+			}
 			f.SpecFuncs = append(f.SpecFuncs, sf)
+		case "axiom":
+			f.Axioms = append(f.Axioms, p.parseClause(l))
+		case "owned":
+			// owned type T   (pointers to T own a finite tree/list of T nodes: memory model M2)
+			if p.ident() != "type" {
+				p.fail("expected 'owned type'")
+			}
+			f.Owned = append(f.Owned, p.ident())
+			p.eof()
 		case "extern", "trusted", "func":
 			fc := &FuncContract{Pos: l.pos, Loops: map[int]*LoopSpec{}}
 			if kw == "extern" || kw == "trusted" {
@@ -572,7 +586,7 @@ func ParseFile(name, src string) (f *File, err error) {
 			p.eof()
 			f.Monitors = append(f.Monitors, m)
 			curMon = m
-		case "directive", "axiom":
+		case "directive":
 			d := &Directive{Pos: l.pos, Kind: kw, Text: strings.TrimSpace(strings.TrimPrefix(l.text, kw))}
 			for p.peek().kind != "eof" {
 				d.Args = append(d.Args, p.next().text)
@@ -671,6 +685,44 @@ func ParseFile(name, src string) (f *File, err error) {
 				c := &Clause{Pos: l.pos, Text: l.text}
 				c.E = p.parseExpr()
 				cur.Cases = append(cur.Cases, c)
+				if !p.accept(",") {
+					break
+				}
+			}
+			p.eof()
+		case "consumes", "releases":
+			if cur == nil {
+				p.fail("%s outside of a function contract", kw)
+			}
+			for {
+				n := p.ident()
+				if kw == "consumes" {
+					cur.Consumes = append(cur.Consumes, n)
+				} else {
+					cur.Releases = append(cur.Releases, n)
+				}
+				if !p.accept(",") {
+					break
+				}
+			}
+			p.eof()
+		case "callghost":
+			// callghost <call ordinal> name = expr, name = expr ...: ghost arguments of that call
+			if cur == nil {
+				p.fail("callghost outside of a function contract")
+			}
+			nt := p.next()
+			n, aerr := strconv.Atoi(nt.text)
+			if aerr != nil {
+				p.fail("call ordinal expected")
+			}
+			if cur.CallGhost == nil {
+				cur.CallGhost = map[int][]GhostArg{}
+			}
+			for {
+				name := p.ident()
+				p.expect("=")
+				cur.CallGhost[n] = append(cur.CallGhost[n], GhostArg{Name: name, E: p.parseExpr(), Text: l.text})
 				if !p.accept(",") {
 					break
 				}
